@@ -506,6 +506,57 @@ class _Unroll(ast.NodeTransformer):
         return node
 
 
+class _Inline(ast.NodeTransformer):
+    """A local that is assigned once from a call-free expression and read exactly once, by the very next statement of the
+    same block, is replaced by its definition (the reverse of introducing a temporary)."""
+
+    def __init__(self, fn):
+        self.n = 0
+        stores, loads = {}, {}
+        for x in ast.walk(fn):
+            if isinstance(x, ast.Name):
+                (stores if isinstance(x.ctx, ast.Store) else loads).setdefault(x.id, []).append(x)
+        self.once = {k for k in stores if len(stores[k]) == 1 and len(loads.get(k, [])) == 1}
+        self.params = {a.arg for a in fn.args.args + fn.args.kwonlyargs}
+
+    def generic_visit(self, node):
+        super().generic_visit(node)
+        for fld in ("body", "orelse", "finalbody"):
+            b = getattr(node, fld, None)
+            if isinstance(b, list) and len(b) >= 2 and isinstance(b[0], ast.stmt):
+                out, i = [], 0
+                while i < len(b):
+                    st = b[i]
+                    nxt = b[i + 1] if i + 1 < len(b) else None
+                    if isinstance(st, ast.Assign) and len(st.targets) == 1 and isinstance(st.targets[0], ast.Name) and st.targets[0].id in self.once \
+                            and st.targets[0].id not in self.params and nxt is not None and isinstance(nxt, (ast.Assign, ast.AugAssign, ast.Expr, ast.If, ast.Return)) \
+                            and not any(isinstance(x, (ast.Call, ast.Yield, ast.Await, ast.NamedExpr, ast.ListComp, ast.GeneratorExp, ast.Lambda)) for x in ast.walk(st.value)):
+                        name = st.targets[0].id
+                        # the single read must sit in the header / simple part of the next statement
+                        region = [nxt.test] if isinstance(nxt, ast.If) else [nxt]
+                        uses = [x for r in region for x in ast.walk(r) if isinstance(x, ast.Name) and x.id == name and isinstance(x.ctx, ast.Load)]
+                        if len(uses) == 1:
+                            val = st.value
+
+                            class _Sub(ast.NodeTransformer):
+                                def visit_Name(self2, n2):
+                                    if n2 is uses[0]:
+                                        return val
+                                    return n2
+                            if isinstance(nxt, ast.If):
+                                nxt.test = _Sub().visit(nxt.test)
+                            else:
+                                nxt = _Sub().visit(nxt)
+                            self.n += 1
+                            out.append(nxt)
+                            i += 2
+                            continue
+                    out.append(st)
+                    i += 1
+                setattr(node, fld, out)
+        return node
+
+
 class _SwapCmp(ast.NodeTransformer):
     """`a < b` -> `b > a`, `a == b` -> `b == a` ... for single comparisons (not `in` / `is`)."""
     _MIRROR = {ast.Lt: ast.Gt, ast.Gt: ast.Lt, ast.LtE: ast.GtE, ast.GtE: ast.LtE, ast.Eq: ast.Eq, ast.NotEq: ast.NotEq}
@@ -561,6 +612,11 @@ def rewrite_function(program: Program, qualname: str, kind: str) -> Program | No
             return None
     elif kind == "unroll":
         w = _Unroll()
+        w.visit(target)
+        if w.n == 0:
+            return None
+    elif kind == "inline":
+        w = _Inline(target)
         w.visit(target)
         if w.n == 0:
             return None
@@ -718,7 +774,7 @@ def run(ctx: Ctx) -> None:
     targets += sorted(q for q in ctx.analysed_functions if q not in targets and q in ctx.p.functions)     # everything the check looked at
     jobs.append(("rewrite", prop, "<whole tree>", "reformat"))
     for q in targets:
-        for kind in ("rename", "aug", "pass", "hoist", "flip", "demorgan", "swapcmp", "swapstmt", "temp", "unroll"):
+        for kind in ("rename", "aug", "pass", "hoist", "flip", "demorgan", "swapcmp", "swapstmt", "temp", "unroll", "inline"):
             jobs.append(("rewrite", prop, q, kind))
     _BASE = ctx.p
     nproc = max(1, min(16, os.cpu_count() or 1, len(jobs)))
